@@ -1,4 +1,4 @@
-CONSTANTS NV = 4  MaxPower = 2  Kinds = {"absent","nil","ok","empty","forged","nosig","longprice","nilext"}  SignedCorrection = TRUE  Part = "votes"
+CONSTANTS NV = 4  MaxPower = 2  Kinds = {"absent","nil","ok","empty","emptyforged","forged","nosig","longprice","nilext"}  SignedCorrection = TRUE  Part = "votes"
 INIT Init
 NEXT Next
 INVARIANTS AcceptOnlyIf EmptyAlwaysOk HonestAccepted MedianInRange Export
